@@ -99,7 +99,7 @@ func c15Query(out string, appendMode, interim bool) string {
 // c15AltQuery: the earlier runs against an outfile use this spelling, so that the query file they leave behind holds
 // a different text of exactly the same length as the judged run's.
 func c15AltQuery(q string) string {
-	for _, kw := range []string{"from ", "select ", "group by ", "limit ", "outfile ", "interval "} // (not "append": only clause keywords are case-insensitive) {
+	for _, kw := range []string{"from ", "select ", "group by ", "limit ", "outfile ", "interval "} { // (not "append": only clause keywords are case-insensitive)
 		q = strings.Replace(q, kw, strings.ToUpper(kw), 1)
 	}
 	return q
